@@ -89,7 +89,13 @@ def check_set(ctx, obs):
             if d['kind'] == 'moduleIdentity':
                 got = [r.get('revision') for r in rec.get('revisions', [])]
                 full = [(len(x[0]) == 11 and '19' or '') + x[0] for x in d['revisions']]     # short form: year 19YY
-                wantr = ['%s-%s-%s %s:%s' % (x[0:4], x[4:6], x[6:8], x[8:10], x[10:12]) for x in full]
+                wantr = []
+                for x in full:
+                    try:
+                        __import__('datetime').datetime(int(x[0:4]), int(x[4:6]), int(x[6:8]), int(x[8:10]), int(x[10:12]))
+                        wantr.append('%s-%s-%s %s:%s' % (x[0:4], x[4:6], x[6:8], x[8:10], x[10:12]))
+                    except ValueError:
+                        wantr.append('1970-01-01 00:00')             # a stamp that names no date: the documented dummy
                 if got != wantr:
                     res.oracle_failures.append({'key': 'revisions', 'what': '%s::%s revisions %r, declared %r' % (mn, k, got, wantr), 'input': inp})
 
